@@ -92,14 +92,25 @@ func (s *SimpleHighlighter) BestFragments(tlm search.TermLocationMap, orig []byt
 	}
 
 	// now that we have the best fragments, we can format them
-	orderedTermLocations.MergeOverlapping()
 	formattedFragments := make([]string, len(bestFragments))
 	for i, fragment := range bestFragments {
+		// merge overlapping locations among those inside this fragment only:
+		// a run of overlapping locations merged across the end of the fragment
+		// would keep the formatter from highlighting any of them
+		fragmentTermLocations := make(TermLocations, 0)
+		for _, termLocation := range orderedTermLocations {
+			if termLocation.Start >= fragment.Start && termLocation.End <= fragment.End {
+				tl := *termLocation
+				fragmentTermLocations = append(fragmentTermLocations, &tl)
+			}
+		}
+		fragmentTermLocations.MergeOverlapping()
+
 		formattedFragments[i] = ""
 		if fragment.Start != 0 {
 			formattedFragments[i] += s.sep
 		}
-		formattedFragments[i] += s.formatter.Format(fragment, orderedTermLocations)
+		formattedFragments[i] += s.formatter.Format(fragment, fragmentTermLocations)
 		if fragment.End != len(fragment.Orig) {
 			formattedFragments[i] += s.sep
 		}
